@@ -76,6 +76,10 @@ const RENAMES: [&str; 10] = [
     "", "a b", "ünï", "q\"q", "b\\s", "{x}", "dup", "dup", "V0", "中",
 ];
 
+const HELPER_IDENTS: [&str; 12] = [
+    "__NAME", "__ENUM", "__RANGES", "__MIN", "__MAX", "__next", "__next_back", "__as_str", "__iter", "r#type",
+    "r#match", "__try_from",
+];
 const FOREIGN_ENUM_ATTRS: [&str; 6] = [
     "#[allow(dead_code)]",
     "#[doc = \" an enum\"]",
@@ -316,13 +320,21 @@ pub fn supported_capped(rng: &mut Rng, ident: &str, allow_huge: bool, cap: usize
     let mut prev: Option<i64> = None;
     let mut values = Vec::with_capacity(n);
     let mut names: Vec<String> = Vec::with_capacity(n);
+    let mut used_ids: Vec<String> = Vec::new();
     for (pos, &si) in order.iter().enumerate() {
         let v = sorted[si];
         if rng.chance(1, 12) {
             body.push_str(*rng.pick(&FOREIGN_VAR_ATTRS));
             body.push('\n');
         }
-        let id = format!("V{}", pos);
+        // now and then a variant named like one of the derive's hidden helper items, or a raw identifier
+        let id = if pos < HELPER_IDENTS.len() && rng.chance(1, 25) {
+            HELPER_IDENTS[(pos + rng.below(3) as usize) % HELPER_IDENTS.len()].to_string()
+        } else {
+            format!("V{}", pos)
+        };
+        let id = if used_ids.contains(&id) { format!("V{}", pos) } else { id };
+        used_ids.push(id.clone());
         let mut name = id.clone();
         if renames && rng.chance(1, 4) {
             let r: String = if rng.chance(1, 30) {
